@@ -31,29 +31,63 @@ FactBlankPairs == /\ \A i \in 1..NScat : Len(Tab.scat[i].f) = 16 /\ Pairs(Tab.sc
                   /\ \A i \in 1..NMasses : Len(Tab.masses[i].f) = 2 /\ Tab.masses[i].f[1] # ""
 FactCounts == <<NScat, NWeights, NMasses>>
 
-ASSUME PrintT(<<"FACT", "names_unique_per_table", FactUnique>>)
-ASSUME PrintT(<<"FACT", "names_follow_element_isotope_syntax", FactSyntax>>)
-ASSUME PrintT(<<"FACT", "every_isotope_has_its_element_in_the_weight_table", FactElementTabulated>>)
-ASSUME PrintT(<<"FACT", "Z_is_the_position_in_the_periodic_table", FactZ>>)
-ASSUME PrintT(<<"FACT", "uncertainty_only_next_to_a_value", FactBlankPairs>>)
+ASSUME IOEnv.PART # "atom" => PrintT(<<"FACT", "names_unique_per_table", FactUnique>>)
+ASSUME IOEnv.PART # "atom" => PrintT(<<"FACT", "names_follow_element_isotope_syntax", FactSyntax>>)
+ASSUME IOEnv.PART # "atom" => PrintT(<<"FACT", "every_isotope_has_its_element_in_the_weight_table", FactElementTabulated>>)
+ASSUME IOEnv.PART # "atom" => PrintT(<<"FACT", "Z_is_the_position_in_the_periodic_table", FactZ>>)
+ASSUME IOEnv.PART # "atom" => PrintT(<<"FACT", "uncertainty_only_next_to_a_value", FactBlankPairs>>)
 ASSUME PrintT(<<"COUNTS", NScat, NWeights, NMasses>>)
 
 (* near-miss cases *)
-ScatSeeds == ScatNames
-AtomSeeds == WeightNames \cup { Tab.masses[i].cp : i \in { j \in 1..NMasses : j % Stride = 0 } }
+(* PART = "scat" | "atom" | "all": the harness evaluates the two entry points' cases in two TLC processes *)
+(* side by side (the evaluation is single-threaded); facts and the attenuation grid belong to part "scat". *)
+(* TLC evaluates every constant definition eagerly, hence the seeds of the other part are made empty.      *)
+DoScat == IOEnv.PART # "atom"
+DoAtom == IOEnv.PART # "scat"
+MassSample == { Tab.masses[i].cp : i \in { j \in 1..NMasses : j % Stride = 0 } }
+ScatSeeds == IF DoScat THEN ScatNames ELSE {}
+AtomSeeds == IF DoAtom THEN WeightNames \cup MassSample ELSE {}
 ScatNear == UNION { NearMisses(n) : n \in ScatSeeds }
 AtomNear == UNION { NearMisses(n) : n \in AtomSeeds }
-NearCases == { [api |-> "scat", cp |-> n, expect |-> ScatOutcome(n)] : n \in ScatNear } \cup
-             { [api |-> "atom", cp |-> n, expect |-> AtomOutcome(n)] : n \in AtomNear }
-ASSUME ndJsonSerialize(IOEnv.NEAR_FILE, SetToSeq(NearCases))
-ASSUME PrintT(<<"NEAR", Cardinality(ScatNear), Cardinality(AtomNear),
-                Cardinality({n \in ScatNear : ScatOutcome(n) # "reject"}),
-                Cardinality({n \in AtomNear : AtomOutcome(n) # "reject"})>>)
-(* the generator is not vacuous: it produces rejected names and names of other rows *)
-ASSUME \E n \in ScatNear : ScatOutcome(n) = "reject"
-ASSUME \E n \in ScatNear : ScatOutcome(n) = "row"
-ASSUME \E n \in AtomNear : AtomOutcome(n) = "element"
-ASSUME \E n \in AtomNear : AtomOutcome(n) = "isotope"
+ScatCase(n, src) == [api |-> "scat", cp |-> n, expect |-> ScatOutcome(n), src |-> src]
+AtomCase(n, src) == [api |-> "atom", cp |-> n, expect |-> AtomOutcome(n), src |-> src]
+(* names that are tabulated - but only in ANOTHER table than the one the entry point reads: an element  *)
+(* or nuclide without a row in the scattering table must be rejected by ScatteringParams, and never      *)
+(* answered with the natural element's or another isotope's row; likewise for Atom                       *)
+ScatCross == IF DoScat THEN (WeightNames \cup MassSample) \ ScatNames ELSE {}
+AtomCross == IF DoAtom THEN ScatNames \ (WeightNames \cup MassNames) ELSE {}
+ScatNotation == UNION { OtherNotations(n) : n \in ScatSeeds }
+AtomNotation == UNION { OtherNotations(n) : n \in AtomSeeds }
+ScatNeighbour == UNION { Neighbours(n) : n \in ScatSeeds }
+AtomNeighbour == UNION { Neighbours(n) : n \in AtomSeeds }
+(* one record per (entry point, name, origin of the name); written as a sequence assembled from the name    *)
+(* sets, so that TLC never has to sort 150 000 records (sets of names are cheap to normalise)                 *)
+CasesOf(S, api, src) ==
+    LET q == SetToSeq(S)
+    IN AsSeq([i \in 1..Len(q) |-> IF api = "scat" THEN ScatCase(q[i], src) ELSE AtomCase(q[i], src)])
+NearSeq == CasesOf(ScatNear, "scat", "near") \o CasesOf(ScatCross, "scat", "cross") \o
+           CasesOf(ScatNotation, "scat", "notation") \o CasesOf(ScatNeighbour, "scat", "neighbour") \o
+           CasesOf(AtomNear, "atom", "near") \o CasesOf(AtomCross, "atom", "cross") \o
+           CasesOf(AtomNotation, "atom", "notation") \o CasesOf(AtomNeighbour, "atom", "neighbour")
+ASSUME ndJsonSerialize(IOEnv.NEAR_FILE, NearSeq)
+(* cross-table names exist and are all to be rejected; no other notation is itself tabulated; neighbouring *)
+(* mass numbers come both tabulated and untabulated; the generator is not vacuous: it produces rejected     *)
+(* names and names of other rows                                                                          *)
+ASSUME DoScat => /\ PrintT(<<"NEAR", "scat", Cardinality(ScatNear), Cardinality(ScatCross), Cardinality(ScatNotation),
+                                     Cardinality(ScatNeighbour), Cardinality({n \in ScatNear : ScatOutcome(n) # "reject"})>>)
+                 /\ ScatCross # {} /\ \A n \in ScatCross : ScatOutcome(n) = "reject"
+                 /\ \A n \in ScatNotation : ScatOutcome(n) = "reject"
+                 /\ \E n \in ScatNeighbour : ScatOutcome(n) = "reject"
+                 /\ \E n \in ScatNeighbour : ScatOutcome(n) = "row"
+                 /\ \E n \in ScatNear : ScatOutcome(n) = "reject"
+                 /\ \E n \in ScatNear : ScatOutcome(n) = "row"
+ASSUME DoAtom => /\ PrintT(<<"NEAR", "atom", Cardinality(AtomNear), Cardinality(AtomCross), Cardinality(AtomNotation),
+                                     Cardinality(AtomNeighbour), Cardinality({n \in AtomNear : AtomOutcome(n) # "reject"})>>)
+                 /\ \A n \in AtomNotation : AtomOutcome(n) = "reject"
+                 /\ \E n \in AtomNear : AtomOutcome(n) = "element"
+                 /\ \E n \in AtomNear : AtomOutcome(n) = "isotope"
+                 /\ \E n \in AtomNeighbour : AtomOutcome(n) = "isotope"
+                 /\ \E n \in AtomNeighbour : AtomOutcome(n) = "reject"
 
 (* attenuation: grid of rationals; n in 1/A^3, sigma in A^2, lambda in A *)
 Dens == { <<1, 8>>, <<1, 1>>, <<3, 40>> }
@@ -61,7 +95,7 @@ Sig  == { <<0, 1>>, <<3, 2>>, <<5, 1>>, <<1, 16>> }
 Lams == { <<1, 10>>, <<8991, 5000>>, <<8991, 2500>>, <<4, 1>>, <<20, 1>> }
 AttCases == { [n |-> n, ss |-> ss, sa |-> sa, lam |-> lam, mu |-> Attenuation(n, ss, sa, lam)] :
               n \in Dens, ss \in Sig, sa \in Sig, lam \in Lams }
-ASSUME ndJsonSerialize(IOEnv.ATT_FILE, SetToSeq(AttCases))
+ASSUME IOEnv.PART # "atom" => ndJsonSerialize(IOEnv.ATT_FILE, SetToSeq(AttCases))
 (* the law: linear in n, equals n (ss + sa) at the reference wavelength, n ss without absorption, *)
 (* strictly increasing in the wavelength when the material absorbs                              *)
 ASSUME \A n \in Dens, ss \in Sig, sa \in Sig :
